@@ -332,7 +332,8 @@ def _emit_type(asm, out, kind, kv, maps, drops, adds=()):
     if pre:
         out.append(pre)
     if keep:
-        out.append('#[derive(%s)]' % ', '.join(keep))
+        # Verus allows `==` in executable code on types that are PartialEq + Eq + Structural
+        out.append('#[derive(%s)]' % ', '.join(keep + (['Structural'] if 'Eq' in keep and 'PartialEq' in keep else [])))
     if dropped_derives:
         asm.dropped.append('%s: derive(%s) dropped' % (kv['name'], ', '.join(dropped_derives)))
     out.append('// extracted %s:%d (comments dropped; derives kept: %s)' % (kv['file'], src.line_of(it.start), ', '.join(keep) or 'none'))
